@@ -1,1 +1,312 @@
-//! Deviation-bounded schedule explorer over real OS threads (filled in with C15).
+//! Deviation-bounded schedule explorer over real OS threads (C15).
+//!
+//! N worker threads run under a baton: exactly one runs between scheduling points. A scheduling
+//! point is reached when a thread starts, calls `yield_point` (from harness-owned user functions
+//! inside evalexpr evaluation) or finishes. At each point the next thread is chosen among the
+//! enabled ones in canonical order (the running thread first if still enabled, then ascending ids);
+//! a schedule is the list of chosen indices. Exploration is depth-first over choice prefixes with a
+//! preemption bound; every execution runs to completion.
+
+use std::cell::Cell;
+use std::sync::{Arc, Condvar, Mutex};
+use std::time::{Duration, Instant};
+
+thread_local! {
+    static TID: Cell<usize> = const { Cell::new(usize::MAX) };
+    static CUR: std::cell::RefCell<Option<Arc<Sched>>> = const { std::cell::RefCell::new(None) };
+}
+
+/// Scheduling point for code that has no handle on the scheduler (user functions stored in a shared
+/// context): yields if the calling thread is a scheduled worker, otherwise does nothing.
+pub fn yield_now() {
+    let s = CUR.with(|c| c.borrow().clone());
+    if let Some(s) = s {
+        s.yield_point();
+    }
+}
+
+/// Records an event in the execution's global (cross-thread) event order.
+pub fn note_event(e: String) {
+    let s = CUR.with(|c| c.borrow().clone());
+    if let Some(s) = s {
+        let me = current_tid();
+        s.m.lock().unwrap().events.push((me, e));
+    }
+}
+
+pub fn current_tid() -> usize {
+    TID.with(|t| t.get())
+}
+
+#[derive(Clone, Copy, PartialEq, Eq, Debug)]
+enum Status {
+    NotStarted,
+    /// waiting at a scheduling point
+    Ready,
+    /// holds the baton
+    Running,
+    Finished,
+    /// did not reach a scheduling point within the watchdog interval while holding the baton
+    Blocked,
+}
+
+#[derive(Clone, Debug)]
+pub struct Point {
+    pub enabled: usize,
+    pub chosen: usize,
+    /// the thread that reached this point could have continued (choosing another one is a preemption)
+    pub running_still_enabled: bool,
+}
+
+struct State {
+    status: Vec<Status>,
+    prefix: Vec<usize>,
+    points: Vec<Point>,
+    /// order in which threads were given the baton
+    order: Vec<usize>,
+    events: Vec<(usize, String)>,
+    last_progress: Instant,
+    degraded: bool,
+    divergence: Option<String>,
+}
+
+pub struct Sched {
+    m: Mutex<State>,
+    cv: Condvar,
+    n: usize,
+}
+
+const WATCHDOG: Duration = Duration::from_millis(300);
+
+impl Sched {
+    pub fn new(n: usize, prefix: Vec<usize>) -> Arc<Sched> {
+        Arc::new(Sched {
+            m: Mutex::new(State {
+                status: vec![Status::NotStarted; n],
+                prefix,
+                points: Vec::new(),
+                order: Vec::new(),
+                events: Vec::new(),
+                last_progress: Instant::now(),
+                degraded: false,
+                divergence: None,
+            }),
+            cv: Condvar::new(),
+            n,
+        })
+    }
+
+    /// Chooses the next thread to run. `me` reached a point; `me_enabled` tells whether it could go on.
+    fn choose(&self, st: &mut State, me: Option<usize>, me_enabled: bool) {
+        let mut enabled: Vec<usize> = Vec::new();
+        if let (Some(m), true) = (me, me_enabled) {
+            enabled.push(m);
+        }
+        for t in 0..self.n {
+            if Some(t) != me && st.status[t] == Status::Ready {
+                enabled.push(t);
+            }
+        }
+        if enabled.is_empty() {
+            return;
+        }
+        let pos = st.points.len();
+        let choice = if pos < st.prefix.len() {
+            let c = st.prefix[pos];
+            if c >= enabled.len() {
+                st.divergence = Some(format!("replayed choice {} at point {} but only {} thread(s) enabled", c, pos, enabled.len()));
+                0
+            } else {
+                c
+            }
+        } else {
+            0
+        };
+        st.points.push(Point {
+            enabled: enabled.len(),
+            chosen: choice,
+            running_still_enabled: me_enabled && me.is_some(),
+        });
+        let next = enabled[choice];
+        st.status[next] = Status::Running;
+        st.order.push(next);
+        st.last_progress = Instant::now();
+    }
+
+    fn wait_for_baton(&self, mut st: std::sync::MutexGuard<'_, State>, me: usize) {
+        loop {
+            if st.status[me] == Status::Running {
+                return;
+            }
+            let (g, _) = self.cv.wait_timeout(st, Duration::from_millis(50)).unwrap();
+            st = g;
+            if st.status[me] == Status::Running {
+                return;
+            }
+            // watchdog: the baton holder is stuck outside our scheduling points (e.g. on a foreign lock
+            // held by a waiting thread); mark it blocked and let the lowest ready thread go on
+            if st.last_progress.elapsed() > WATCHDOG {
+                let holder = (0..self.n).find(|t| st.status[*t] == Status::Running);
+                let lowest_ready = (0..self.n).find(|t| st.status[*t] == Status::Ready);
+                if lowest_ready == Some(me) {
+                    if let Some(h) = holder {
+                        st.status[h] = Status::Blocked;
+                    }
+                    st.degraded = true;
+                    st.status[me] = Status::Running;
+                    st.order.push(me);
+                    st.last_progress = Instant::now();
+                    return;
+                }
+            }
+        }
+    }
+
+    /// Called by a worker thread first thing.
+    pub fn start(self: &Arc<Self>, me: usize) {
+        TID.with(|t| t.set(me));
+        CUR.with(|c| *c.borrow_mut() = Some(self.clone()));
+        let mut st = self.m.lock().unwrap();
+        st.status[me] = Status::Ready;
+        self.cv.notify_all();
+        self.wait_for_baton(st, me);
+    }
+
+    /// A scheduling point inside the thread's work.
+    pub fn yield_point(&self) {
+        let me = current_tid();
+        if me == usize::MAX {
+            return; // not a scheduled thread (sequential reference run)
+        }
+        let mut st = self.m.lock().unwrap();
+        if st.status[me] == Status::Blocked {
+            // we were given up on by the watchdog: rejoin as an ordinary ready thread
+            st.status[me] = Status::Ready;
+            self.cv.notify_all();
+            self.wait_for_baton(st, me);
+            return;
+        }
+        st.status[me] = Status::Ready;
+        self.choose(&mut st, Some(me), true);
+        self.cv.notify_all();
+        self.wait_for_baton(st, me);
+    }
+
+    /// Called by a worker thread when its body is done.
+    pub fn finish(&self, me: usize) {
+        let mut st = self.m.lock().unwrap();
+        let was_blocked = st.status[me] == Status::Blocked;
+        st.status[me] = Status::Finished;
+        if !was_blocked {
+            self.choose(&mut st, Some(me), false);
+        }
+        self.cv.notify_all();
+    }
+
+    /// Controller: waits until all threads are at their start point, then makes the first choice.
+    pub fn release(&self) {
+        let mut st = self.m.lock().unwrap();
+        while st.status.iter().any(|s| *s == Status::NotStarted) {
+            st = self.cv.wait(st).unwrap();
+        }
+        self.choose(&mut st, None, false);
+        self.cv.notify_all();
+    }
+}
+
+#[derive(Clone, Debug)]
+pub struct Execution<R> {
+    pub choices: Vec<usize>,
+    pub points: Vec<Point>,
+    pub order: Vec<usize>,
+    pub events: Vec<(usize, String)>,
+    pub results: Vec<R>,
+    pub degraded: bool,
+    pub divergence: Option<String>,
+}
+
+/// Runs one execution of `n` threads under the given choice prefix. `body(tid, sched)` is the work
+/// of thread `tid`; it must call `sched.yield_point()` (directly or through user functions).
+pub fn run_once<R: Send + 'static>(
+    n: usize,
+    prefix: &[usize],
+    body: Arc<dyn Fn(usize, &Arc<Sched>) -> R + Send + Sync>,
+) -> Execution<R> {
+    let sched = Sched::new(n, prefix.to_vec());
+    let mut handles = Vec::new();
+    for tid in 0..n {
+        let s = sched.clone();
+        let b = body.clone();
+        handles.push(std::thread::spawn(move || {
+            s.start(tid);
+            let r = std::panic::catch_unwind(std::panic::AssertUnwindSafe(|| b(tid, &s)));
+            s.finish(tid);
+            r
+        }));
+    }
+    sched.release();
+    let mut results = Vec::new();
+    let mut panicked = None;
+    for (i, h) in handles.into_iter().enumerate() {
+        match h.join() {
+            Ok(Ok(r)) => results.push(r),
+            _ => panicked = Some(i),
+        }
+    }
+    let st = sched.m.lock().unwrap();
+    Execution {
+        choices: st.points.iter().map(|p| p.chosen).collect(),
+        points: st.points.clone(),
+        order: st.order.clone(),
+        events: st.events.clone(),
+        results,
+        degraded: st.degraded,
+        divergence: st.divergence.clone().or(panicked.map(|i| format!("thread {} panicked", i))),
+    }
+}
+
+/// Depth-first exploration of all schedules with at most `bound` preemptions (None = unbounded).
+/// `visit` is called with every complete execution; returns the number of executions.
+pub fn explore<R: Send + Clone + 'static>(
+    n: usize,
+    bound: Option<usize>,
+    cap: u64,
+    body: Arc<dyn Fn(usize, &Arc<Sched>) -> R + Send + Sync>,
+    visit: &mut dyn FnMut(&Execution<R>),
+) -> (u64, bool) {
+    let mut count = 0u64;
+    let mut capped = false;
+    let mut stack: Vec<Vec<usize>> = vec![vec![]];
+    while let Some(prefix) = stack.pop() {
+        if count >= cap {
+            capped = true;
+            break;
+        }
+        let x = run_once(n, &prefix, body.clone());
+        count += 1;
+        visit(&x);
+        if x.divergence.is_some() {
+            continue;
+        }
+        // preemptions made by the choices before point i
+        let mut pre = vec![0usize; x.points.len() + 1];
+        for (i, p) in x.points.iter().enumerate() {
+            pre[i + 1] = pre[i] + (p.running_still_enabled && p.chosen != 0) as usize;
+        }
+        for i in (prefix.len()..x.points.len()).rev() {
+            let p = &x.points[i];
+            for alt in 1..p.enabled {
+                let cost = pre[i] + p.running_still_enabled as usize;
+                if let Some(b) = bound {
+                    if cost > b {
+                        continue;
+                    }
+                }
+                let mut np: Vec<usize> = x.choices[..i].to_vec();
+                np.push(alt);
+                stack.push(np);
+            }
+        }
+    }
+    (count, capped)
+}
